@@ -22,6 +22,23 @@ PMATS = {
 }
 
 
+@contextlib.contextmanager
+def quiet_fd2():
+    import os
+    import sys
+
+    sys.stderr.flush()
+    saved = os.dup(2)
+    null = os.open(os.devnull, os.O_WRONLY)
+    try:
+        os.dup2(null, 2)
+        yield
+    finally:
+        os.dup2(saved, 2)
+        os.close(null)
+        os.close(saved)
+
+
 def build(orc, S, pm="P", dense=True, noise=None, log_level=0):
     """Phonopy object of the oracle crystal; noise = (rng, amplitude) perturbs the scaled positions far below symprec."""
     from phonopy import Phonopy
@@ -30,7 +47,27 @@ def build(orc, S, pm="P", dense=True, noise=None, log_level=0):
     if noise is not None:
         rng, amp = noise
         cell.scaled_positions = cell.scaled_positions + rng.uniform(-amp, amp, size=cell.scaled_positions.shape)
-    return Phonopy(cell, supercell_matrix=S, primitive_matrix=PMATS[pm], store_dense_svecs=dense, log_level=log_level)
+    # phonopy prints "Warning: Point group symmetries of supercell and primitive cell ..." and spglib writes
+    # "spglib: Secondary axis is not found." to fd 2 for sheared supercells: keep the check's output clean
+    with contextlib.redirect_stdout(io.StringIO()), quiet_fd2():
+        return Phonopy(cell, supercell_matrix=S, primitive_matrix=PMATS[pm], store_dense_svecs=dense, log_level=log_level)
+
+
+def hnf_matrices(dmax):
+    """All sublattices of Z^3 of index <= dmax, one basis each (Hermite normal form, lower triangular)."""
+    out = []
+    for a in range(1, dmax + 1):
+        for c in range(1, dmax // a + 1):
+            for f in range(1, dmax // (a * c) + 1):
+                for b in range(c):
+                    for d in range(f):
+                        for e in range(f):
+                            out.append([[a, 0, 0], [b, c, 0], [d, e, f]])
+    return out
+
+
+REBASE = [[[1, 0, 0], [0, 1, 0], [0, 0, 1]], [[1, 1, 0], [0, 1, 0], [0, 0, 1]], [[0, 1, 0], [0, 0, 1], [1, 0, 0]],
+          [[1, 0, 0], [0, -1, 0], [1, 0, -1]], [[1, 0, 2], [0, 1, 0], [0, 0, 1]], [[0, -1, 0], [1, 1, 0], [0, 1, 1]]]
 
 
 def project(orc, cell):
@@ -52,8 +89,12 @@ def min_image_table(G, S, D, upos, rows, B):
     img = D * (ns @ S.T)                                  # (m,3) : S n
     u = np.array(upos, dtype=np.int64)
     out = np.zeros((len(rows), len(u)), dtype=np.int64)
+    aS, m = adj3(S), D * det3(S)
     for r, i in enumerate(rows):
-        v = (u - u[i])[:, None, :] + img[None, :, :]      # (n,m,3)
+        du = u - u[i]
+        n0 = np.floor_divide(2 * int(np.sign(m)) * (du @ aS.T) + abs(m), 2 * abs(m))
+        du = du - D * (n0 @ S.T)                          # wrapped separation
+        v = du[:, None, :] + img[None, :, :]              # (n,m,3)
         q = np.einsum("nmi,ij,nmj->nm", v, G, v)
         out[r] = q.min(axis=1)
     return out
@@ -71,6 +112,9 @@ def box_sound(G, S, D, upos, rows, B, tab):
     for r, i in enumerate(rows):
         for j in range(len(upos)):
             w = aS @ (np.array(upos[j], dtype=np.int64) - np.array(upos[i], dtype=np.int64))
+            mm = D * det3(S)
+            w = int(np.sign(mm)) * w
+            w = w - abs(mm) * np.floor_divide(2 * w + abs(mm), 2 * abs(mm))
             for k in range(3):
                 a = m - abs(int(w[k]))
                 lhs, rhs = a * a * dg, int(tab[r][j]) * int(A[k][k])
@@ -80,15 +124,41 @@ def box_sound(G, S, D, upos, rows, B, tab):
     return True, big
 
 
+def short_basis(G, S):
+    """A unimodular U such that the columns of S U are short in the metric G (pairwise size reduction).
+    Chooser only: TLC checks that U is unimodular and proves the image box sound for the basis it is given."""
+    G = np.array(G, dtype=np.int64)
+    R = np.array(S, dtype=np.int64).copy()
+    U = np.eye(3, dtype=np.int64)
+    for _ in range(200):
+        changed = False
+        for i in range(3):
+            for j in range(3):
+                if i == j:
+                    continue
+                bi, bj = R[:, i], R[:, j]
+                q = int(np.rint(float(bi @ G @ bj) / float(bj @ G @ bj)))
+                if q and (bi - q * bj) @ G @ (bi - q * bj) < bi @ G @ bi:
+                    R[:, i] = bi - q * bj
+                    U[:, i] = U[:, i] - q * U[:, j]
+                    changed = True
+        if not changed:
+            break
+    assert np.array_equal(np.array(S, dtype=np.int64) @ U, R)
+    return U.tolist(), R.tolist()
+
+
 def choose_box(G, S, D, upos, rows):
+    """-> (B, table, U, S U)."""
+    U, R = short_basis(G, S)
     for B in (1, 2, 3, 4):
-        tab = min_image_table(G, S, D, upos, rows, B)
-        ok, big = box_sound(G, S, D, upos, rows, B, tab)
+        tab = min_image_table(G, R, D, upos, rows, B)
+        ok, big = box_sound(G, R, D, upos, rows, B, tab)
         if ok:
             if big >= 2 ** 31:
                 raise RuntimeError("x10: box criterion exceeds TLC's integers (%d)" % big)
-            return B, tab
-    raise RuntimeError("x10: no sound image box up to 4 for S=%s" % (S,))
+            return B, tab, U, R
+    raise RuntimeError("x10: no sound image box up to 4 for S=%s (reduced %s)" % (S, R))
 
 
 def status(res, orig):
@@ -195,7 +265,7 @@ def invariant_int_array(rng, perms, n, kind):
 DRIFT_RE = re.compile(r"^(.*?)(-?\d+\.\d{6}) \(([xyz])([xyz])\) (-?\d+\.\d{6}) \(([xyz])([xyz])\)\n$", re.S)
 
 
-def drift_call(arr, primitive, name, values_only, api=None):
+def drift_call(arr, primitive, name, values_only, api=None, den=1):
     """api: a Phonopy object with log_level=1; the drift line is then the one printed by set_force_constants()."""
     import warnings
 
@@ -220,7 +290,7 @@ def drift_call(arr, primitive, name, values_only, api=None):
     m = DRIFT_RE.match(text)
     out = dict(text=text, same=bool(np.array_equal(arr, before)), parsed=False, pfx=text, rv1=0, rc1=[1, 1], rv2=0, rc2=[1, 1])
     if m:
-        v1, v2 = float(m.group(2)), float(m.group(5))
+        v1, v2 = float(m.group(2)) * den, float(m.group(5)) * den      # numerators over den (1 or 4: exact in %f)
         if v1 == int(v1) and v2 == int(v2):
             out.update(parsed=True, pfx=m.group(1), rv1=int(v1), rv2=int(v2),
                        rc1=["xyz".index(m.group(3)) + 1, "xyz".index(m.group(4)) + 1],
